@@ -11,9 +11,12 @@
 //! * `M`: ADD / DELETE through `query_mut` against direct `annotate` / `remove_*` calls on a twin store (`mutate`).
 //! * `H`: `Handles::union/intersection/contains/position` against Vec/BTreeSet and `LimitIterator::limit` against
 //!   slices (`handles`).
+//! * `F`: every public `filter_*` method of the six iterator traits against a predicate computed from the item-level
+//!   API (`filter`, `panic`; see `c08_filt.rs`).
 //!
 //! Helper modules: `c08_spec.rs` (case specs, resolution, printer, builder, strategies), `c08_ref.rs` (reference
-//! evaluator), `c08_run.rs` (running queries, implemented-positions table, iterator chains).
+//! evaluator), `c08_run.rs` (running queries, implemented-positions table, iterator chains, handle-collection form),
+//! `c08_filt.rs` (filter-method facet).
 
 use crate::engine::*;
 use crate::hist::*;
@@ -30,6 +33,8 @@ pub mod spec;
 pub mod refeval;
 #[path = "c08_run.rs"]
 pub mod run;
+#[path = "c08_filt.rs"]
+pub mod filt;
 
 use refeval::*;
 use run::*;
@@ -106,10 +111,17 @@ pub struct HCase {
 }
 
 #[derive(Clone, Debug, Serialize, Deserialize, PartialEq)]
+pub struct FCase {
+    pub hist: History,
+    pub args: filt::FArgs,
+}
+
+#[derive(Clone, Debug, Serialize, Deserialize, PartialEq)]
 pub enum Case {
     Q(QCase),
     M(MCase),
     H(HCase),
+    F(FCase),
 }
 
 // ------------------------------------------------------------------------------------------
@@ -711,6 +723,39 @@ impl<'a> QCtx<'a> {
                         sig,
                         format!("{:?}{}: as text {} but as {:?} query {}", print_levels(std::slice::from_ref(&lvl)), ed, t.show(), form, o.show()),
                     );
+                }
+            }
+        }
+        // the built form with a handle collection in first position (where the first constraint has one)
+        if first_unimplemented(&base).is_none() && !base.cons.is_empty() && !base.cons[0].has_missing() {
+            if let Some((o, desc)) = run_level_collection(self.store, &base, env) {
+                let t = self.engine(&base, env, Form::Text);
+                self.out.checks += 1;
+                self.out.label("collection_form");
+                self.out.label(&format!("collection_form:{}:{}", rtn, base.cons[0].kind()));
+                let qtext = print_levels(std::slice::from_ref(&base));
+                match (&t, &o) {
+                    (Ans::Rows(_), Ans::Rows(_)) => {
+                        let (a, b) = (Self::items(&t).unwrap(), Self::items(&o).unwrap());
+                        if !b.is_empty() {
+                            self.out.label("collection_form_nonempty");
+                        }
+                        if self.definite_difference(&base, env, &b, &a, "collection") {
+                            let what = if a.iter().all(|x| b.contains(x)) { "extra" } else if b.iter().all(|x| a.contains(x)) { "missing" } else { "differ" };
+                            self.out.fail(
+                                "forms",
+                                format!("forms|Collection|{}|{}|{}", rtn, base.cons[0].kind(), what),
+                                format!("{:?}{} gives {} but with its first constraint built as {} it gives {}", qtext, ed, show_items(&a), desc, show_items(&b)),
+                            );
+                        }
+                    }
+                    (_, Ans::Panic(p)) => self.out.fail("forms", p.signature(), format!("{:?}{} with its first constraint built as {} panicked at {}:{}: {}", qtext, ed, desc, p.file, p.line, p.msg)),
+                    (Ans::Rows(_), Ans::Err(e)) => self.out.fail(
+                        "forms",
+                        format!("forms|Collection|{}|{}|error", rtn, base.cons[0].kind()),
+                        format!("{:?}{} gives {} but with its first constraint built as {} it fails: {}", qtext, ed, t.show(), desc, e),
+                    ),
+                    _ => {}
                 }
             }
         }
@@ -1589,6 +1634,71 @@ fn run_h(case: &HCase) -> Outcome {
 }
 
 // ------------------------------------------------------------------------------------------
+// F cases
+
+fn run_f(case: &FCase) -> Outcome {
+    let mut out = Outcome::new();
+    out.label("case:filter");
+    let mut machine = match build_machine(&case.hist) {
+        Ok(m) => m,
+        Err(e) => {
+            out.skip(&e);
+            return out;
+        }
+    };
+    if case.args.sizes & 0x2000 != 0 {
+        // two sub-stores (in memory only) with some annotations, resources and data sets assigned to them, so that
+        // filter_substore() has something to tell apart
+        let mask = case.args.mask;
+        let bit = |i: usize, shift: usize| (mask >> ((i + shift) % 32)) & 1 == 1;
+        let store = &mut machine.store;
+        let r = catch(|| -> Result<(), StamError> {
+            let s1 = store.add_new_substore("sub1", "sub1.store.stam.json")?;
+            let s2 = store.add_new_substore("sub2", "sub2.store.stam.json")?;
+            let anns: Vec<AnnotationHandle> = store.annotations().map(|a| a.handle()).collect();
+            for (i, a) in anns.into_iter().enumerate() {
+                if bit(i, 3) {
+                    store.associate_substore(a, if bit(i, 17) { s1 } else { s2 })?;
+                }
+            }
+            let ress: Vec<TextResourceHandle> = store.resources().map(|r| r.handle()).collect();
+            for (i, r) in ress.into_iter().enumerate() {
+                if bit(i, 7) {
+                    store.associate_substore(r, if bit(i, 19) { s1 } else { s2 })?;
+                }
+            }
+            let sets: Vec<AnnotationDataSetHandle> = store.datasets().map(|s| s.handle()).collect();
+            for (i, s) in sets.into_iter().enumerate() {
+                if bit(i, 11) {
+                    store.associate_substore(s, if bit(i, 23) { s1 } else { s2 })?;
+                }
+            }
+            Ok(())
+        });
+        match r {
+            Ok(Ok(())) => out.label("f:substores"),
+            _ => out.label("f:substores_failed"),
+        }
+    }
+    filt::run_filters(&machine.store, &case.args, &mut out);
+    // development aid: C08_SURVEY=<file> appends every failure of an F case to that file and lets the run continue,
+    // so that one run lists all failing (trait, method) signatures instead of the first one
+    if let Ok(path) = std::env::var("C08_SURVEY") {
+        use std::io::Write;
+        if let Ok(mut f) = std::fs::OpenOptions::new().create(true).append(true).open(path) {
+            for x in &out.failures {
+                let _ = writeln!(f, "{}\t{}\t{}", x.facet, x.signature, x.detail.replace('\n', " "));
+            }
+        }
+        out.failures.clear();
+        out.label("survey_mode");
+    }
+    // non-trivial: some filter kept an item and some filter rejected one
+    out.nontrivial = out.labels.iter().any(|l| l.ends_with(":m")) && out.labels.iter().any(|l| l.ends_with(":n"));
+    out
+}
+
+// ------------------------------------------------------------------------------------------
 
 impl Property for C08 {
     type Case = Case;
@@ -1596,7 +1706,7 @@ impl Property for C08 {
         "C08"
     }
     fn rule(&self) -> String {
-        "case = Q (history of 13-26 / 22-44 ops over 1-3 resources with annotations on text, on annotations, on resources/datasets/keys/data, removals; SELECT over one of the 6 result types with 0-3 constraints per level drawn from the kinds the engine implements for that type in at least one position: ID, DATA set key [op value] [AS METADATA], VALUE, TEXT literal / AS NOCASE / AS REGEX, RESOURCE [AS METADATA] [OFFSET], DATASET [AS METADATA], ANNOTATION [AS METADATA [RECURSIVE]], [A OR B (OR C)], LIMIT b e in [-4,6]^2; 0-2 nested (OPTIONAL) sub-queries linked by variable constraints ANNOTATION/RESOURCE/DATASET/KEY/DATA/TEXT ?v and RELATION ?v OP; all referents are live items of the generated store) | M (history + single-level selection; DELETE <type> or ADD ANNOTATION WITH DATA..; TARGET ?v [OFFSET]) | H (two handle collections over 0..16 built sorted/unsorted + LimitIterator over 0..n with (b,e) in [-5,7]^2). Non-trivial Q: >= 2 non-LIMIT constraints or a sub-query, and the root answer is non-empty, duplicate-free and smaller than the set of all live items of the type; non-trivial M: non-empty selection and the mutation agreed with the twin; H always. distinct = distinct case JSON.".into()
+        "case = Q (history of 13-26 / 22-44 ops over 1-3 resources with annotations on text, on annotations, on resources/datasets/keys/data, removals; SELECT over one of the 6 result types with 0-3 constraints per level drawn from the kinds the engine implements for that type in at least one position: ID, DATA set key [op value] [AS METADATA], VALUE, TEXT literal / AS NOCASE / AS REGEX, RESOURCE [AS METADATA] [OFFSET], DATASET [AS METADATA], ANNOTATION [AS METADATA [RECURSIVE]], [A OR B (OR C)], LIMIT b e in [-4,6]^2; 0-2 nested (OPTIONAL) sub-queries linked by variable constraints ANNOTATION/RESOURCE/DATASET/KEY/DATA/TEXT ?v and RELATION ?v OP; all referents are live items of the generated store) | M (history + single-level selection; DELETE <type> or ADD ANNOTATION WITH DATA..; TARGET ?v [OFFSET]) | H (two handle collections over 0..16 built sorted/unsorted + LimitIterator over 0..n with (b,e) in [-5,7]^2) | F (history + arguments; every public filter_* method of the six iterator traits - 108 methods, owned and _byref forms - applied to all items of the type in store order / reversed / a subset / a reversed subset, with arguments drawn from the store: single items, handle collections of size 0-3 with FilterMode Any/All, value operators derived from a datum, texts of annotations / text selections / a pool with exact, case-insensitive and regex matching, AnnotationDepth One/Max, a text relation operator, in half of the cases two in-memory sub-stores; the survivors are compared as a sequence with the source items that satisfy the predicate computed from the item-level API of each item, and .test() with non-emptiness). Non-trivial F: some filter kept an item and some filter rejected one. Non-trivial Q: >= 2 non-LIMIT constraints or a sub-query, and the root answer is non-empty, duplicate-free and smaller than the set of all live items of the type; non-trivial M: non-empty selection and the mutation agreed with the twin; H always. distinct = distinct case JSON.".into()
     }
     fn assumptions(&self) -> Vec<String> {
         vec![
@@ -1607,11 +1717,13 @@ impl Property for C08 {
             "sub-query semantics = nested loops with the outer item bound as context variable (Query::bind_*var); an OPTIONAL sub-query without results yields one row without that level; if an OPTIONAL sub-query has results that are all eliminated by its own non-optional sub-query the expectation is don't-care".into(),
             "DELETE of keys/data: equal to direct removal with strict = true or with strict = false (not documented which); DELETE/ADD are only judged when the SELECT part is implemented; ADD with an id is only generated for selections of at most one item".into(),
             "Handles built with Handles::new are declared unsorted (always legal); sorted collections come from Handles::from_iter; intersection order is not compared (documentation contradictory), union order only for unsorted receivers".into(),
+            "forms facet, handle collections: `ID x` / `[ID a OR ID b]` as first constraint of an ANNOTATION (RESOURCE) query is also built as Constraint::Annotations(handles, Normal, AnnotationDepth::Zero) (Constraint::Resources(handles, Normal)), `ANNOTATION [AS METADATA] x` / a disjunction of those as first constraint of an ANNOTATION, DATA or KEY query as Constraint::Annotations(handles, qualifier, AnnotationDepth::One); compared as multisets (handles deduplicated)".into(),
+            "filter facet: the meaning of a filter method is its rustdoc, or where it has none the relation its name and parameter name between the item and the argument in the item-level API (filter_key(k): the item has / reaches through its annotations a datum with key k; KeyIterator::filter_one(data): the key of that datum; DataSetIterator::filter_one(data): the set of that datum; *_on_text / *_in_metadata: through annotations() / annotations_as_metadata() of the resource; the *_on_text methods whose rustdoc says 'as metadata' are read by their name). Undecided (counted, taken out of both sides): an empty argument collection; FilterMode::All on filters that go through the annotations of an item when no single annotation has all members but the annotations together do; case-insensitive comparison when lower-casing and upper-casing disagree; a regular expression that matches only a part of the text (or the empty string, for an annotation without text); an annotation with several text pieces one of which is empty (where delimiters go); cross-type value operators (C10's reference); an item whose item-level API panics. filter_all(collection): empty unless every member is in the iterator, else some items of the iterator including all members. filter_text_byref(.., case_sensitive = false, ..) is given a lower-cased argument as its rustdoc demands. AnnotationDepth::Zero is not passed to the *_in_targets filters; filter_substore(Some(..)) only with in-memory sub-stores (add_new_substore + associate_substore)".into(),
             "histories whose replay hits a panic / error / handle mismatch (other properties' findings) are skipped".into(),
         ]
     }
     fn cases(&self, tier: Tier) -> u64 {
-        tier.pick(400_000, 8_000_000)
+        tier.pick(460_000, 9_200_000)
     }
     fn strategy(&self, tier: Tier) -> BoxedStrategy<Case> {
         let (max_ops, text_max, depth) = (tier.pick(26, 44), tier.pick(24, 40), 2);
@@ -1644,7 +1756,9 @@ impl Property for C08 {
                 }
                 Case::H(HCase { a, a_from_iter, b, b_from_iter, n, limits })
             });
-        prop_oneof![60 => q, 15 => m, 25 => h].boxed()
+        let f = (hist_strategy(max_ops, text_max), fargs_strategy()).prop_map(|(hist, args)| Case::F(FCase { hist, args }));
+        // the F share comes on top of the 400 000 / 8 000 000 cases of the other kinds (see cases())
+        prop_oneof![60 => q, 15 => m, 25 => h, 15 => f].boxed()
     }
     fn run(&self, case: &Case) -> Outcome {
         silence_stderr();
@@ -1652,6 +1766,7 @@ impl Property for C08 {
             Case::Q(c) => run_q(c),
             Case::M(c) => run_m(c),
             Case::H(c) => run_h(c),
+            Case::F(c) => run_f(c),
         }
     }
     fn health(&self, labels: &BTreeMap<String, u64>, evals: u64) -> Vec<String> {
@@ -1664,12 +1779,29 @@ impl Property for C08 {
         if q > 0 && get("nontrivial") * 100 < q * 30 {
             v.push(format!("only {} of {} query cases are non-trivial", get("nontrivial"), q));
         }
+        if get("survey_mode") > 0 {
+            v.push("C08_SURVEY is set: failures of filter cases were diverted to that file, this run decides nothing".into());
+        }
+        // every public filter method must have been seen keeping an item and rejecting an item
+        let f = get("case:filter");
+        if f >= 2_000 {
+            for (tr, methods) in filt::METHODS {
+                for m in methods.iter() {
+                    for kind in ["m", "n"] {
+                        let k = format!("f:{}.{}:{}", tr, m, kind);
+                        if get(&k) * 200 < f {
+                            v.push(format!("label {} seen in only {} of {} filter cases", k, get(&k), f));
+                        }
+                    }
+                }
+            }
+        }
         for k in [
             "type:ANNOTATION", "type:DATA", "type:KEY", "type:TEXT", "type:RESOURCE", "type:DATASET", "kind:ID", "kind:DATAKEY", "kind:KEYVALUE", "kind:VALUE",
             "kind:TEXT", "kind:TEXT_NOCASE", "kind:TEXT_REGEX", "kind:RESOURCE", "kind:RESOURCE_META", "kind:RESOURCE_OFFSET", "kind:DATASET", "kind:DATASET_META",
             "kind:ANNOTATION", "kind:ANNOTATION_META", "kind:ANNOTATION_META_REC", "kind:UNION", "kind:LIMIT", "kind:RELATION", "kind:VAR_ANNOTATION", "kind:VAR_TEXT",
             "kind:VAR_DATA", "kind:VAR_KEY", "kind:VAR_DATASET", "kind:VAR_RESOURCE", "levels:2", "levels:3", "optional", "limit_negative", "union_checked", "chain",
-            "sub_checked", "sub_nonempty", "sub_optional_unmatched", "delete", "add", "m_nonempty_selection",
+            "sub_checked", "sub_nonempty", "sub_optional_unmatched", "delete", "add", "m_nonempty_selection", "collection_form_nonempty",
         ] {
             if get(k) * 400 < evals {
                 v.push(format!("label {} seen in only {} of {} cases", k, get(k), evals));
